@@ -29,7 +29,7 @@ CHECKS = {
          "For each generated script the step sequence (T_k, X_k) is taken from an on_iteration run read step by step through engineexport_get_time/get_state; the policy under test (driven in random chunks, optionally with explicit sample() calls) must record required subset <= actual <= permitted selection with bit-identical times and states in (sample, species, cell) order; fixed-step clock n*dt, completion at the first step beyond t_max, progress and completion flags are checked after every iterate.",
          "Sorted request lists only. Engine-side doubles of the time quantities are obtained through the library's conversion and cross-checked against the SI description (1e-12).", "DESIGN.md 2/C09"),
  "C10": ("sandboxed lifecycle driver checked against a reference state machine: exhaustive short call sequences + random long ones on one engine, random interleavings over two engine objects compared with single-engine projections, CPU-time termination monitor",
-         "All call sequences of length 3 (quick) / 4 (thorough) over an 11-call alphabet after setup, per engine kind, plus thousands of random sequences of length 5-12: after every call the model predicts steps taken (raw clock), record count, completion flag, return value and the exact output bytes. Two-engine interleavings (each in a fresh process) are compared call by call with each engine run alone. Set-up and loop termination is decided on CPU time for below-one / fractional / macroscopic amounts under every init mode.",
+         "All call sequences of length 3 (quick) / 4 (thorough) over an 14-call alphabet after setup, per engine kind, plus thousands of random sequences of length 5-12: after every call the model predicts steps taken (raw clock), record count, completion flag, return value and the exact output bytes. Two-engine interleavings (each in a fresh process) are compared call by call with each engine run alone. Set-up and loop termination is decided on CPU time for below-one / fractional / macroscopic amounts under every init mode.",
          "'Returns' means within a CPU budget >= 1000x the typical cost. Calls on a released engine other than setup/finalize/is_complete are outside the statement. Known finding C10/shared-native-state is keyed on the call pattern, single-engine histories are never excused.", "DESIGN.md 2/C10"),
  "C12": ("round-trip monitor with an independent field-by-field extractor of physical content (SI via vf/si.py) over dict, JSON text and file paths (single and multi-file layouts loaded from another working directory)",
          "Generated networks / grids / graphs / systems / scripts / trajectories with a different unit system at every level go through to_dict/from_dict, JSON text, save/load (both trajectory storage modes) and hand-written multi-file layouts with relative paths and .npy/.txt side files; physical content, idempotence of to_dict, every reader alias and every documented default are compared.",
@@ -79,7 +79,7 @@ EXTRA = {
  "C05": " Also: numpy scalars as plain-number operands (either side).",
  "C06": " Also: arrays given as tuple / float32 / float16 / int32 / int64 ndarrays and lists of numpy scalars; exponents to +-9 for part of the random cases (judged while every factor and intermediate value stays inside 1e+-280).",
  "C07": " Also: tau-leap tally cases with means of 150 and 400 events per channel and step.",
- "C10": " Also: an iterate_n letter with counts beyond a C int (3e9, 2^31, 2^32, 2^32+2, 1e12); termination scripts under all four sampling policies with a 'frozen' family (nothing can happen / the reactant runs out) through simulate_script; fixed-step counts with the step given in fs..h under scripts counting in fs..h.",
+ "C10": " Also: a refused set-up (None, a number, a file name, a dictionary) as a letter: it must change nothing; an iterate_n letter with counts beyond a C int (3e9, 2^31, 2^32, 2^32+2, 1e12); termination scripts under all four sampling policies with a 'frozen' family (nothing can happen / the reactant runs out) through simulate_script; fixed-step counts with the step given in fs..h under scripts counting in fs..h.",
  "C14": " Also: seeds given as numpy integers, floats and 0-d arrays.",
  "C16": " Also: the identity-map run under random script options (sampling policy / interval / t_max / seed) and the guarantees of init_state_processing 'none' and 'redist' through cgmap=identity.",
  "C17": " Also: evenly spaced dyadic time lattices (exact ties after odd samples); grids of 130..2000 cells with the cell given as tuple / list / ndarray / numpy scalars / object with numpy members in int8..uint64 and numpy integers as linear index.",
